@@ -206,6 +206,11 @@ class World:
                         d = next(k for k, a in enumerate(ch) if a is m) + 1
                         require(n.get_depth(relative_to=m) == d, "get_depth-relative", f"step {self.step_no}")
                         require(n.get_depth(m, False) == d, "get_depth-relative", f"step {self.step_no} (check_ancestor=False)")
+                    else:
+                        # "up to relative_to (if it is the ancestor at all)": a non-ancestor is never met
+                        require(n.get_depth(m, False) == len(ch), "get_depth-relative-non-ancestor",
+                                f"step {self.step_no}: check_ancestor=False with a non-ancestor gives {n.get_depth(m, False)}, "
+                                f"absolute depth is {len(ch)}")
                 for cname in ("LInner", "LReq"):
                     exp_a = next((a for a in ch if L.is_subclass(type(a).__name__, cname)), None)
                     require(n.get_first_ancestor_of_type(L.cls(cname)) is exp_a, "get_first_ancestor_of_type",
